@@ -2376,6 +2376,12 @@ impl TieredEngine {
             self.cache_strategy.invalidate(*doc_id);
         }
 
+        // A bulk load writes the cold tier directly, so a recent-write mirror of any loaded id now
+        // carries an outdated version. Reads reject such mirrors one by one, but k-NN search takes
+        // the hot tier's top candidates BEFORE that validation: enough stale mirrors close to a
+        // query crowd a fresh, acknowledged document out of the result. Drop them here.
+        self.hot_tier.batch_delete(doc_ids);
+
         // L1b caches search results, so bulk loads can change k-NN results even if
         // cached result sets do not explicitly include the newly loaded doc_ids.
         self.query_cache.clear();
